@@ -145,56 +145,64 @@ structure SplitState where
   taken : Nat
   offset : Int
 
-/-- the loop of `_split_addrange` over the intermediate diff -/
+/-- one iteration of the loop of `_split_addrange`: `d` is `intermediate_diff[i]`, `next` is
+    `intermediate_diff[i+1]` if any; the flag returned says that the next entry was consumed too -/
+def splitStep (key : Nat) (loc rem : List J) (path : List PKey) (itemStrategy : Option String)
+    (d : Op) (next : Option Op) (st : SplitState) : Except Err (SplitState × Bool) := do
+  if d.idx < st.taken then throw (.assertion "d.key >= taken")
+  let st ← if st.taken < d.idx then do
+      let overlap := some [Op.addrange key (slice loc st.taken d.idx)]
+      pure { st with b := ← agreement st.b path overlap overlap, taken := d.idx }
+    else pure st
+  -- range substitution: the next op is a removal on the same key
+  let nextRem : Option Nat := match next with
+    | some (.removerange k n) => if k == d.idx then some n else none
+    | _ => none
+  match nextRem with
+  | some localLen =>
+      match d with
+      | .addrange _ vs => do
+          let b ← conflictD st.b path (some [.addrange key (slice loc d.idx (d.idx + localLen))])
+                    (some [.addrange key vs]) itemStrategy
+          pure ({ b := b, taken := st.taken + localLen, offset := st.offset + vs.length - localLen }, true)
+      | _ => throw (.key "valuelist")
+  | none =>
+      match d with
+      | .removerange _ n => do
+          let vl := slice loc d.idx (d.idx + n)
+          let b ← onesided st.b path (some [.addrange key vl]) (some [])
+          pure ({ b := b, taken := st.taken + vl.length, offset := st.offset - vl.length }, false)
+      | .addrange _ vs => do
+          let b ← onesided st.b path none (some [.addrange key vs])
+          pure ({ st with b := b, offset := st.offset + vs.length }, false)
+      | .patchI _ _ => do
+          let lv ← match loc[d.idx]? with
+            | some v => pure v
+            | none => throw (.index "list index out of range")
+          let ri := (Int.ofNat d.idx) + st.offset
+          if ri < 0 ∧ Int.ofNat rem.length + ri < 0 then throw (.index "list index out of range")
+          let rv ← match (if ri < 0 then rem[(Int.toNat (Int.ofNat rem.length + ri))]? else rem[ri.toNat]?) with
+            | some v => pure v
+            | none => throw (.index "list index out of range")
+          let b ← conflictD st.b path (some [.addrange key [lv]]) (some [.addrange key [rv]]) itemStrategy (some [d])
+          pure ({ st with b := b, taken := st.taken + 1 }, false)
+      | _ => throw (.value "Invalid diff op")
+
+/-- the loop of `_split_addrange` over the intermediate diff; `skip` = this entry was already
+    handled together with its predecessor -/
 def splitLoop (key : Nat) (loc rem : List J) (path : List PKey) (itemStrategy : Option String) :
-    List Op → SplitState → Except Err SplitState
-  | [], st => .ok st
-  | d :: rest, st => do
-      if d.idx < st.taken then throw (.assertion "d.key >= taken")
-      let st ← if st.taken < d.idx then do
-          let overlap := some [Op.addrange key (slice loc st.taken d.idx)]
-          pure { st with b := ← agreement st.b path overlap overlap, taken := d.idx }
-        else pure st
-      -- range substitution: the next op is a removal on the same key
-      let nextIsRem := match rest with
-        | .removerange k _ :: _ => k == d.idx
-        | _ => false
-      if nextIsRem then
-        match d, rest with
-        | .addrange _ vs, .removerange _ localLen :: rest' => do
-            let b ← conflictD st.b path (some [.addrange key (slice loc d.idx (d.idx + localLen))])
-                      (some [.addrange key vs]) itemStrategy
-            splitLoop key loc rem path itemStrategy rest'
-              { b := b, taken := st.taken + localLen, offset := st.offset + vs.length - localLen }
-        | _, _ => throw (.key "valuelist")
-      else
-        match d with
-        | .removerange _ n => do
-            let vl := slice loc d.idx (d.idx + n)
-            let b ← onesided st.b path (some [.addrange key vl]) (some [])
-            splitLoop key loc rem path itemStrategy rest
-              { b := b, taken := st.taken + vl.length, offset := st.offset - vl.length }
-        | .addrange _ vs => do
-            let b ← onesided st.b path none (some [.addrange key vs])
-            splitLoop key loc rem path itemStrategy rest { st with b := b, offset := st.offset + vs.length }
-        | .patchI _ _ => do
-            let lv ← match loc[d.idx]? with
-              | some v => pure v
-              | none => throw (.index "list index out of range")
-            let ri := (Int.ofNat d.idx) + st.offset
-            let rv ← match (if ri < 0 then rem[(Int.toNat (Int.ofNat rem.length + ri))]? else rem[ri.toNat]?) with
-              | some v => pure v
-              | none => throw (.index "list index out of range")
-            if ri < 0 ∧ Int.ofNat rem.length + ri < 0 then throw (.index "list index out of range")
-            let b ← conflictD st.b path (some [.addrange key [lv]]) (some [.addrange key [rv]]) itemStrategy (some [d])
-            splitLoop key loc rem path itemStrategy rest { st with b := b, taken := st.taken + 1 }
-        | _ => throw (.value "Invalid diff op")
+    List Op → Bool → SplitState → Except Err SplitState
+  | [], _, st => .ok st
+  | _ :: rest, true, st => splitLoop key loc rem path itemStrategy rest false st
+  | d :: rest, false, st => do
+      let (st', skip) ← splitStep key loc rem path itemStrategy d rest.head? st
+      splitLoop key loc rem path itemStrategy rest skip st'
 
 /-- `_split_addrange` -/
 def splitAddrange (E : Env) (key : Nat) (loc rem : List J) (path : List PKey) (itemStrategy : Option String) :
     Except Err B := do
   let inter ← diffAt E.O bigFuel E.cfg .generic (starPath path) (.arr loc) (.arr rem)
-  let st ← splitLoop key loc rem path itemStrategy inter { b := [], taken := 0, offset := 0 }
+  let st ← splitLoop key loc rem path itemStrategy inter false { b := [], taken := 0, offset := 0 }
   if st.taken < loc.length then
     let li := loc.drop st.taken
     let idx : Int := Int.ofNat st.taken - Int.ofNat loc.length + Int.ofNat rem.length
@@ -223,62 +231,65 @@ def concurrentInserts (E : Env) (ld rd : List Op) (path : List PKey) (itemStrate
 
 /-! ### `_merge_lists` -/
 
-/-- one chunk of `_merge_lists` -/
-def mergeChunk (E : Env) (rec : Rec) (inStr : Bool) (base : List J) (path : List PKey)
-    (listStrategy itemStrategy : Option String) (b : B) (c : Chunk) : Except Err B := do
-  let key := c.j
-  let d0 := c.d0
-  let d1 := c.d1
+/-- `_merge_lists`, P/R or R/P: one side removed the item, the other patched it -/
+def chunkDeleteVsPatch (E : Env) (rec : Rec) (inStr : Bool) (base : List J) (path : List PKey)
+    (listStrategy itemStrategy : Option String) (b : B) (key : Nat) (p0 p1 : List Op) (e0 e1 : Op) : Except Err B := do
   let itemPath := path ++ [PKey.i key]
-  let a0 := d0.filter isAddrange
-  let p0 := d0.filter (fun e => !isAddrange e)
-  let a1 := d1.filter isAddrange
-  let p1 := d1.filter (fun e => !isAddrange e)
-  let (la, lp) := chunkTypename d0
-  let (ra, rp) := chunkTypename d1
-  let achunk := la ++ "/" ++ ra
-  let pchunk := lp ++ "/" ++ rp
-  let chunk := la ++ lp ++ "/" ++ ra ++ rp
+  let thediff := if isPatchOp e0 then opDiff e0 else opDiff e1
+  if isRemoverange e0 && rmLength e0 != 1 then throw (.assertion "p0[0].length == 1")
+  if isRemoverange e1 && rmLength e1 != 1 then throw (.assertion "p1[0].length == 1")
+  let isTr := allTransients E.S.transients itemPath thediff
+  if isRemoverange e0 && isTr then localD b path (some p0) (some p1)
+  else if isRemoverange e1 && isTr then remoteD b path (some p0) (some p1)
+  else if listStrategy == some "use-base" then pure (baseD b path (some p0) (some p1))
+  else if listStrategy == some "use-local" then localD b path (some p0) (some p1)
+  else if listStrategy == some "use-remote" then remoteD b path (some p0) (some p1)
+  else if willCounter E.S itemPath thediff then do
+    let cd := counterDiff E.S itemPath thediff
+    let bv ← match base[key]? with
+      | some v => pure v
+      | none => throw (.index "list index out of range")
+    let sub ← if isRemoverange e0 then rec inStr bv (.d cd) (.d thediff) itemPath
+              else rec inStr bv (.d thediff) (.d cd) itemPath
+    pure (b ++ sub)
+  else conflictD b path (some p0) (some p1) itemStrategy
+
+/-- `_merge_lists`, "Then deal with patches and/or removals" -/
+def chunkPatchRemove (E : Env) (rec : Rec) (inStr : Bool) (base : List J) (path : List PKey)
+    (listStrategy itemStrategy : Option String) (b : B) (key : Nat) (p0 p1 : List Op) (pchunk : String) : Except Err B :=
+  if Op.pyEqList p0 p1 then agreement b path (some p0) (some p1)
+  else
+    match p0, p1 with
+    | e0 :: _, e1 :: _ =>
+      if pchunk == "P/P" then do
+        let bv ← match base[key]? with
+          | some v => pure v
+          | none => throw (.index "list index out of range")
+        let sub ← rec inStr bv (.d (opDiff e0)) (.d (opDiff e1)) (path ++ [PKey.i key])
+        pure (b ++ sub)
+      else chunkDeleteVsPatch E rec inStr base path listStrategy itemStrategy b key p0 p1 e0 e1
+    | _, _ => throw (.index "list index out of range")
+
+/-- `_merge_lists`, "Deal with prior insertion first" -/
+def chunkPriorInsert (E : Env) (path : List PKey) (itemStrategy : Option String) (b : B) (a0 a1 : List Op)
+    (achunk : String) : Except Err B :=
+  if achunk == "A/A" then do
+    let sub ← concurrentInserts E a0 a1 path itemStrategy
+    pure (b ++ sub)
+  else if achunk == "A/" || achunk == "/A" then onesided b path (some a0) (some a1)
+  else pure b
+
+/-- the big if-elif 'switch' of `_merge_lists` on the chunk type names -/
+def chunkSwitch (E : Env) (rec : Rec) (inStr : Bool) (base : List J) (path : List PKey)
+    (listStrategy itemStrategy : Option String) (b : B) (key : Nat) (d0 d1 a0 p0 a1 p1 : List Op)
+    (chunk pchunk achunk : String) : Except Err B := do
   if chunk == "/" then pure b
   else if !(!d0.isEmpty && !d1.isEmpty) then onesided b path (some d0) (some d1)
   else if Op.pyEqList d0 d1 then agreement b path (some d0) (some d1)
   else if chunk == "R/R" then pure b      -- logged: "Not expecting conflicting two-sided removal"
   else if pchunk == "P/P" || pchunk == "P/R" || pchunk == "R/P" then do
-    let b ← if achunk == "A/A" then do
-        let sub ← concurrentInserts E a0 a1 path itemStrategy
-        pure (b ++ sub)
-      else if achunk == "A/" || achunk == "/A" then onesided b path (some a0) (some a1)
-      else pure b
-    if Op.pyEqList p0 p1 then agreement b path (some p0) (some p1)
-    else
-      match p0, p1 with
-      | e0 :: _, e1 :: _ =>
-        if pchunk == "P/P" then do
-          let bv ← match base[key]? with
-            | some v => pure v
-            | none => throw (.index "list index out of range")
-          let sub ← rec inStr bv (.d (opDiff e0)) (.d (opDiff e1)) itemPath
-          pure (b ++ sub)
-        else do
-          let thediff := if isPatchOp e0 then opDiff e0 else opDiff e1
-          if isRemoverange e0 && rmLength e0 != 1 then throw (.assertion "p0[0].length == 1")
-          if isRemoverange e1 && rmLength e1 != 1 then throw (.assertion "p1[0].length == 1")
-          let isTr := allTransients E.S.transients itemPath thediff
-          if isRemoverange e0 && isTr then localD b path (some p0) (some p1)
-          else if isRemoverange e1 && isTr then remoteD b path (some p0) (some p1)
-          else if listStrategy == some "use-base" then pure (baseD b path (some p0) (some p1))
-          else if listStrategy == some "use-local" then localD b path (some p0) (some p1)
-          else if listStrategy == some "use-remote" then remoteD b path (some p0) (some p1)
-          else if willCounter E.S itemPath thediff then do
-            let cd := counterDiff E.S itemPath thediff
-            let bv ← match base[key]? with
-              | some v => pure v
-              | none => throw (.index "list index out of range")
-            let sub ← if isRemoverange e0 then rec inStr bv (.d cd) (.d thediff) itemPath
-                      else rec inStr bv (.d thediff) (.d cd) itemPath
-            pure (b ++ sub)
-          else conflictD b path (some p0) (some p1) itemStrategy
-      | _, _ => throw (.index "list index out of range")
+    let b ← chunkPriorInsert E path itemStrategy b a0 a1 achunk
+    chunkPatchRemove E rec inStr base path listStrategy itemStrategy b key p0 p1 pchunk
   else if chunk == "A/P" || chunk == "A/R" then do
     let (b', a) ← tryresolve b path (some d0) (some d1) itemStrategy
     match a with
@@ -299,6 +310,17 @@ def mergeChunk (E : Env) (rec : Rec) (inStr : Bool) (base : List J) (path : List
     let sub ← concurrentInserts E d0 d1 path itemStrategy
     pure (b ++ sub)
   else throw (.assertion "Unhandled chunk conflict type")
+
+/-- one chunk of `_merge_lists` -/
+def mergeChunk (E : Env) (rec : Rec) (inStr : Bool) (base : List J) (path : List PKey)
+    (listStrategy itemStrategy : Option String) (b : B) (c : Chunk) : Except Err B :=
+  let d0 := c.d0
+  let d1 := c.d1
+  let (la, lp) := chunkTypename d0
+  let (ra, rp) := chunkTypename d1
+  chunkSwitch E rec inStr base path listStrategy itemStrategy b c.j d0 d1
+    (d0.filter isAddrange) (d0.filter (fun e => !isAddrange e)) (d1.filter isAddrange) (d1.filter (fun e => !isAddrange e))
+    (la ++ lp ++ "/" ++ ra ++ rp) (lp ++ "/" ++ rp) (la ++ "/" ++ ra)
 
 /-- `_merge_lists` -/
 def mergeLists (E : Env) (rec : Rec) (inStr : Bool) (base : List J) (ld rd : List Op) (path : List PKey) :
@@ -349,6 +371,55 @@ def decideMerge (E : Env) (base : J) (ld rd : List Op) : Except Err (List MD) :=
   let b ← mergeF E bigFuel false base (.d ld) (.d rd) []
   let b := resolveGeneric b (E.S.get "/")
   pure (validated b)
+
+/-! ### "the two sides change different parts" as a decidable predicate (hypothesis of `C06_model_no_conflict`,
+    evaluated by the driver on generated cases to measure the theorem's domain) -/
+
+/-- one chunk: at most one side touches it, or both do the same, or both patch the item and the
+    sub-diffs are again disjoint -/
+def chunkDisj (rec : J → List Op → List Op → List PKey → Bool) (base : List J) (path : List PKey) (c : Chunk) : Bool :=
+  c.d0.isEmpty || c.d1.isEmpty || Op.pyEqList c.d0 c.d1 ||
+  (match c.d0, c.d1 with
+   | [.patchI _ a], [.patchI _ b] =>
+       match base[c.j]? with
+       | some bv => rec bv a b (path ++ [PKey.i c.j])
+       | none => false
+   | _, _ => false)
+
+/-- one key of a dict diff against the other side's diff -/
+def keyDisj (rec : J → List Op → List Op → List PKey → Bool) (base : List (String × J)) (path : List PKey)
+    (k : String) (le re : Op) : Bool :=
+  (isRemoveOp le && isRemoveOp re) ||
+  (!(isRemoveOp le || isRemoveOp re) && (isPD le).isNone && (isPD re).isNone &&
+   chunkTypename [le] == chunkTypename [re] &&
+   (Op.pyEq le re ||
+    (match le, re, lookupKV k base with
+     | .patchK _ a, .patchK _ b, some bv => rec bv a b (path ++ [PKey.s k])
+     | _, _, _ => false)))
+
+def disjF (S : Strategies) : Nat → Bool → J → List Op → List Op → List PKey → Bool
+  | 0, _, _, _, _, _ => false
+  | fuel + 1, inStr, base, ld, rd, path =>
+      match base with
+      | .obj kvs =>
+          match dictBased ld, dictBased rd with
+          | .ok l, .ok r =>
+              l.all (fun kv => match lookupKV kv.1 r with
+                | none => true
+                | some re => keyDisj (disjF S fuel inStr) kvs path kv.1 kv.2 re)
+          | _, _ => false
+      | .arr xs =>
+          match makeMergeChunks xs.length ld rd with
+          | .ok chunks => chunks.all (chunkDisj (disjF S fuel inStr) xs path)
+          | .error _ => false
+      | .str s =>
+          !inStr && S.get (starPath path) != some "inline-source" && S.get (starPath path) != some "union" &&
+          (match makeMergeChunks ((splitLines s).map J.str).length ld rd with
+           | .ok chunks => chunks.all (chunkDisj (disjF S fuel true) ((splitLines s).map J.str) path)
+           | .error _ => false)
+      | _ => false
+
+def disjoint (S : Strategies) (base : J) (ld rd : List Op) : Bool := disjF S bigFuel false base ld rd []
 
 end Merge
 end Nbdime
